@@ -77,7 +77,7 @@ func (c11) Build(tier string, seed uint64) []any {
 		}
 	}
 	// sizes
-	lim := 17
+	lim := 25
 	if th {
 		lim = 49
 	}
@@ -126,7 +126,7 @@ func (c11) Build(tier string, seed uint64) []any {
 		}
 	}
 	// large
-	nBig := 6
+	nBig := 40
 	if th {
 		nBig = 2500
 	}
